@@ -47,6 +47,8 @@ CONFIGS = [
      "handler": {"DSC": ("ONE", "INF", "NONE", "NAN"), "IOU": ("ZERO", "ONE", "INF", "NONE"), "ASSD": ("INF", "ZERO", "ONE", "NAN"), "RVD": ("ONE", "ZERO", "INF", "ONE"), "clDSC": ("NONE", "NAN", "ONE", "ZERO")}},
     {"input": "SEMANTIC", "backend": "scipy", "matcher": {"kind": "merge", "metric": "IOU", "thr": 0.3}, "global": ["IOU", "ASSD"], "std": "ONE",
      "handler": {"DSC": ("NAN", "ZERO", "ONE", "INF"), "IOU": ("INF", "NONE", "ZERO", "ONE"), "ASSD": ("ZERO", "INF", "ONE", "NAN")}, "metrics": ["DSC", "IOU"]},
+    # clDSC is only defined for 2-D / 3-D input: 1-D inputs make evaluate raise (in the pristine run as well)
+    {"input": "MATCHED_INSTANCE", "matcher": None, "metrics": ["DSC", "IOU", "clDSC"], "global": ["DSC", "clDSC"]},
 ]
 
 
@@ -187,8 +189,9 @@ def evaluate_step(ctx, tr, inp_idx, opts, history, pending, via_aggregator=None)
         with np.errstate(all="ignore"), pan.quiet():
             out = tr.ev.evaluate(pred, refa, **call_kwargs(opts))
     except Exception as e:  # noqa: BLE001
-        ctx.viol("evaluate_raised_for_option_combination", {"exc": type(e).__name__ + ": " + repr(e)[:300], "step": step, "history": history[-6:]},
-                 features={"exc": type(e).__name__, "per_call_save_group_times": opts["save_group_times"], "ctor_save_group_times": tr.ctor_opts.get("save_group_times", False)})
+        # whether raising is right for this (configuration, input) is decided by the pristine run: same error there
+        pending.append({"cfg": tr.cfg_idx, "input": inp_idx, "result": {"ERR": type(e).__name__ + ": " + repr(e)[:300]}, "step": step, "history_len": len(history),
+                        "opts": {"per_call_save_group_times": opts["save_group_times"], "ctor_save_group_times": tr.ctor_opts.get("save_group_times", False)}})
         return
     ctx.count("C15.input_hashes_checked")
     if (array_fingerprint(pred), array_fingerprint(refa)) != fp0 or not np.array_equal(pred, keep[0]) or not np.array_equal(refa, keep[1]):
@@ -360,8 +363,13 @@ def teardown(ctx):
         pr = a[key]
         metrics = CONFIGS[p["cfg"]].get("metrics", pan.DEFAULT_METRICS)
         ctx.count("C15.evaluate_steps_judged")
-        if "ERR" in pr:
-            ctx.viol("pristine_evaluation_raised", {"pair": key, "exc": pr["ERR"]}, features={"what": "pristine"})
+        if "ERR" in pr and "ERR" not in p["result"]:
+            ctx.viol("result_depends_on_history_or_options", {"key": "ERR", "step": p["step"], "observed": "evaluation succeeded", "pristine": pr}, features={"what": "history_or_options", "key": "ERR"})
+            continue
+        if "ERR" in p["result"]:
+            if "ERR" not in pr or pr["ERR"].split(":")[0] != p["result"]["ERR"].split(":")[0]:
+                ctx.viol("evaluate_raised_for_option_combination", {"exc": p["result"]["ERR"], "step": p["step"], "pristine": pr if "ERR" in pr else "pristine evaluation succeeded"},
+                         features=dict({"exc": p["result"]["ERR"].split(":")[0]}, **p.get("opts", {})))
             continue
         d = results_equal(norm(p["result"]), pr, metrics)
         if d is not None:
